@@ -156,6 +156,9 @@ func c06Gen(c *Ctx) {
 			if r.Intn(2) == 0 {
 				units = trieOverlong
 				fam = "random-rejected-lead-bytes"
+			} else {
+				units = trieCollide
+				fam = "random-collision-candidates"
 			}
 		}
 		ps := randPatternSet(r, units, 8, 5)
